@@ -20,3 +20,6 @@ mod c09_aggregates;
 
 #[cfg(all(kani, feature = "c10"))]
 mod c10_order;
+
+#[cfg(all(kani, feature = "c16"))]
+mod c16_time;
